@@ -245,6 +245,29 @@ theorem rejected_iff (S : OSys σ α ε) (fuel : Nat) (tr : List ε) (h : accept
   have := (accepts_iff S fuel tr [] h t).2 ht
   cases this
 
+/-- a run showing `t1 ++ t2` passes through a state after `t1` -/
+theorem Run.split_append {S : OSys σ α ε} {a c : σ} (t1 t2 : List ε) (h : Run S a (t1 ++ t2) c) :
+    ∃ b, Run S a t1 b ∧ Run S b t2 c := by
+  induction t1 generalizing a with
+  | nil => exact ⟨a, Run.nil a, h⟩
+  | cons e t1 ih =>
+    obtain ⟨b, hb1, hb2⟩ := Run.split_cons (show Run S a (e :: (t1 ++ t2)) c from h)
+    obtain ⟨b', hb'1, hb'2⟩ := ih hb2
+    exact ⟨b', Run.append hb1 hb'1, hb'2⟩
+
+/-- a run showing exactly one event contains the visible step that shows it -/
+theorem Run.single_vis {S : OSys σ α ε} {a c : σ} {e : ε} (h : Run S a [e] c) :
+    ∃ s s' x, Tau S a s ∧ x ∈ S.acts ∧ S.silent x = false ∧ S.shows s x e = true ∧ S.step s x = some s' ∧ Tau S s' c := by
+  generalize hl : [e] = l at h
+  induction h with
+  | nil _ => cases hl
+  | silent s s' s'' x tr hm hs hst _ ih =>
+    obtain ⟨u, u', y, h1, h2, h3, h4, h5, h6⟩ := ih hl
+    exact ⟨u, u', y, Tau.step s s' u x hm hs hst h1, h2, h3, h4, h5, h6⟩
+  | vis s s' s'' x e' tr hm hs hsh hst hrest _ =>
+    cases hl
+    exact ⟨s, s', x, Tau.refl s, hm, hs, hsh, hst, Run.nil_tau hrest rfl⟩
+
 /-- every state a run can be in is reachable by the model's step relation: whatever is proved for all reachable states (an
 inductive invariant, a kernel-decided closed set) holds after every accepted trace -/
 inductive Reach (S : OSys σ α ε) : σ → Prop
